@@ -115,6 +115,8 @@ func (c *c21Run) expectedWriteOutcome(st c21Step) string {
 			return "no-such-key"
 		}
 		return "ok"
+	case "bad-put":
+		return "bad-digest"
 	}
 	return "ok"
 }
@@ -138,6 +140,9 @@ func (c *c21Run) runSeq() {
 				class := "sync-write-outcome-ignores-accepted-writes"
 				if st.Op == "cond-put" {
 					class = "conditional-put-precondition-ignores-accepted-writes"
+				}
+				if st.Op == "bad-put" {
+					class = "put-with-mismatching-checksum-not-rejected"
 				}
 				res.violate(fmt.Sprintf("%s:%s%s:expected-%s-got-%s", class, st.Op, condSuffix(st), want, rec.Out),
 					fmt.Sprintf("step %d %s %s/%s: the writes accepted before it leave the key %s, so the call must answer %s; it answered %s", i, st.Op, st.Bucket, st.Key, c.model.fp(st.Bucket, st.Key), want, rec.Out),
